@@ -527,7 +527,7 @@ def classic_slips(ctx, rule, files):
             n += 1
             nested = ".<locals>." in fi.qual
             for f in (lints.dup_operands, lints.strip_charset, lints.cached_mutable, lints.broad_try_around_loop, lints.open_without_trunc, lints.unused_result,
-                      lints.stored_iterator, lints.seq_equal_by_zip, lints.quantity_truthiness, lints.swallowed_fs_failure, lints.errno_tolerance_around_loop, lints.stale_precomputed_hash, lints.crossed_family_update, lints.guard_add_mismatch, lints.splitext_never_equal, lints.publish_failure_as_status, lints.quantity_or_default, lints.guard_attr_deviates, lints.unbalanced_peer_args, lints.id_in_hash, lints.set_op_with_sequence_default, lints.loop_flag_overwritten, lints.identity_on_quantity, lints.conditional_reraise, lints.loop_variable_reused, lints.item_error_around_loop, lints.loop_target_clobbers, lints.mode_mask_drops_special_bits, lints.copyfileobj_length_confusion):
+                      lints.stored_iterator, lints.seq_equal_by_zip, lints.quantity_truthiness, lints.swallowed_fs_failure, lints.errno_tolerance_around_loop, lints.stale_precomputed_hash, lints.crossed_family_update, lints.guard_add_mismatch, lints.splitext_never_equal, lints.publish_failure_as_status, lints.quantity_or_default, lints.guard_attr_deviates, lints.unbalanced_peer_args, lints.id_in_hash, lints.set_op_with_sequence_default, lints.loop_flag_overwritten, lints.identity_on_quantity, lints.conditional_reraise, lints.loop_variable_reused, lints.item_error_around_loop, lints.loop_target_clobbers, lints.mode_mask_drops_special_bits, lints.copyfileobj_length_confusion, lints.child_status_conjoined):
                 if nested:
                     continue  # the enclosing function's walk already covers nested bodies
                 for node, tag, msg in f(fi.node):
